@@ -1325,6 +1325,14 @@ func isLifetimeTie(f *ssa.Function, u *ssa.UnOp) bool {
 				starts = append(starts, sf)
 			}
 		}
+		if len(starts) == 0 {
+			// a function literal that captures nothing is not a closure value: `go func(a, b){…}(x, y)`
+			for _, sf := range goBodiesOf(par) {
+				if sf.Fn == f {
+					starts = append(starts, sf)
+				}
+			}
+		}
 	} else if curProg != nil {
 		for _, site := range curProg.callersOf(f) {
 			g, ok := site.In.(*ssa.Go)
